@@ -332,7 +332,8 @@ class C20(Prop):
         for pre in self.PREFILLS:
             base = bytes([0x77]) * pre
             for p in (("u8", 9), ("u64", 1), ("sl", b""), ("sl", b"ab"), ("tv", 4, b""), ("tv", 4, b"xyz"), ("pr", 4, b"xyz"), ("sec", b""), ("sec", b"abc"),
-                      ("ad", BG.rand_addr(rng, "ipv4")), ("ad", ("unspec",)), ("ty", "ssl"), ("tv", 4, bytes(65535)), ("sl", bytes(65535))):
+                      ("ad", BG.rand_addr(rng, "ipv4")), ("ad", ("unspec",)), ("ty", "ssl"), ("tv", 4, bytes(65535)), ("sl", bytes(65535)),
+                      ("seca", 1, b"\x04\x00\x01\x2a\x05\x00\x00"), ("seca", 5, b"\x04\x00\x01\x2a\x05\x00\x00\x09")):
                 add(base, p)
         for _ in range(1500 if tier == "quick" else 60000):
             add(pre_small(), BG.rand_payload(rng))
